@@ -8,7 +8,9 @@ Build graphs and the executable well-formedness checker (generic in the node typ
   4. every input (explicit, implicit, order-only, validation) is in `fs` or produced by a statement,
   5. for every `(root, t) ∈ reqs`, `t` is needed by `root` (backward closure along edges),
   6. every pool a statement is bound to is declared or `console`, no pool is declared twice,
-  7. every `default` target is produced by a statement.
+  7. every `default` target is produced by a statement,
+  8. (`wellFormedInst`) every file the install step copies unconditionally is needed by the `install` target when a
+     statement produces it, and exists otherwise.
 
 The declarative counterpart `WellFormed` is at the end; `GraphLemmas.lean` proves `wellFormed … = true ↔ WellFormed …`.
 Core Lean only (linked into the driver).
@@ -139,6 +141,28 @@ def wellFormed (g : Graph α) (fs : List α) (reqs : List (α × α)) : Bool :=
   rulesDefined g && outputsDisjoint g.edges && acyclicB g.edges && closedB fs g.edges && reqsOk g.edges reqs
     && poolsB g && defaultsB g
 
+/-! ### clause 8: what the install step copies
+
+`inst` = the files the install step copies unconditionally (the non-optional entries of `install.dat`), `iroot` = the
+`install` target.  `meson install --no-rebuild` copies them right after Ninja has brought the prerequisites of `iroot` up to
+date: a file that a statement produces must therefore be needed by `iroot`; a file that nothing produces must exist. -/
+
+def instOk (fs : List α) (es : List (Edge α)) (R : List α) (f : α) : Bool :=
+  if producedBy es f then decide (f ∈ R) else decide (f ∈ fs)
+
+def installB (fs : List α) (es : List (Edge α)) (iroot : α) (inst : List α) : Bool :=
+  let R := reachSet es iroot
+  inst.all (instOk fs es R)
+
+/-- the files of `inst` the clause rejects (for reports) -/
+def installMissing (fs : List α) (es : List (Edge α)) (iroot : α) (inst : List α) : List α :=
+  let R := reachSet es iroot
+  inst.filter (fun f => !instOk fs es R f)
+
+/-- the checker with the install clause -/
+def wellFormedInst (g : Graph α) (fs : List α) (reqs : List (α × α)) (iroot : α) (inst : List α) : Bool :=
+  wellFormed g fs reqs && installB fs g.edges iroot inst
+
 /-! ### declarative specification -/
 
 /-- `u` is a direct prerequisite of `v`: some statement lists `u` as an input and `v` as an output -/
@@ -178,5 +202,13 @@ structure WellFormed (g : Graph α) (fs : List α) (reqs : List (α × α)) : Pr
   poolsUnique : g.pools.Nodup ∧ console ∉ g.pools
   /-- every `default` target is produced by a statement -/
   defaultsProduced : ∀ d ∈ g.defaults, ∃ e ∈ g.edges, d ∈ e.outs
+
+/-- `WellFormed` plus the install clause -/
+structure WellFormedInst (g : Graph α) (fs : List α) (reqs : List (α × α)) (iroot : α) (inst : List α) : Prop where
+  base : WellFormed g fs reqs
+  /-- an installed file that some statement produces is brought up to date by building `iroot` -/
+  installReach : ∀ f ∈ inst, (∃ e ∈ g.edges, f ∈ e.outs) → Star (Need g.edges) iroot f
+  /-- an installed file that no statement produces exists after configuration -/
+  installExist : ∀ f ∈ inst, (¬ ∃ e ∈ g.edges, f ∈ e.outs) → f ∈ fs
 
 end MesonModel.Ninja
